@@ -44,7 +44,7 @@ CHECKS = {
  "C12": ("exploration", "model-based testing: bounded-exhaustive histories over the 11-letter server alphabet against a reference activation automaton, input attempt after every step",
          "Every history up to length 5 (6 thorough) plus biased random histories up to length 60, each on a fresh connected client; after every step the client's emissions, input acceptance (write / try_write) with byte counts, and bitmap callbacks are compared with the automaton written from the property (set-valued where the property is silent).",
          "Trusted: the 40-line reference automaton and the strict parsers. Several PDUs per frame are asserted only while the client is active (there the property determines the outcome).", "DESIGN §6 C12"),
- "C01": ("fault_enumeration", "fault enumeration over the final CredSSP reply through real TLS: exhaustive single-bit flips and truncations of the honest reply, structured forgeries (offsets, wrong keys, other certificate, reflection, re-encoding), classified by the reference CredSSP/NTLM server itself",
+ "C01": ("fault_enumeration", "fault enumeration over the final CredSSP reply through real TLS: exhaustive single-bit flips and truncations of the honest reply, structured forgeries (offsets, wrong keys, other certificate, reflection, re-encoding), two-connection histories (reused authentication object; relay presenting a certificate with the issuer and serial number of an earlier one under another key), classified by the reference CredSSP/NTLM server itself",
          "Whole NLA handshakes through Connector::connect against an in-process OpenSSL acceptor and reference NTLM/CredSSP server. For every reply that does not prove the session key the call must fail and the server, reading to EOF, must receive zero bytes after the AUTHENTICATE message; that the honest reply is followed by the credentials is only a guard against a vacuous pass (C03 states that connecting succeeds).",
          "Trusted: refimpl::ntlm verifier and seal model (pinned by MS-NLMP 4.2.4 vectors), OpenSSL. Replies the reference side itself accepts (e.g. a flipped bit in the unchecked version INTEGER, another sequence number under a valid signature) are not required to be refused.", "DESIGN §6 C01"),
  "C02": ("exploration", "bounded-exhaustive negotiation replies x configurations on a scripted transport with a raw-transcript oracle, plus generated whole connections through real TLS with trusted / untrusted certificates",
